@@ -109,7 +109,7 @@ Leaves ==
     {TextN(w, tr) : w \in Words, tr \in Ws} \cup
     {ExprN(e, tr) : e \in Exprs, tr \in Ws} \cup
     {VoidN(nm, at, tr) : nm \in VoidNames, at \in AttrChoices, tr \in Ws} \cup
-    {CallN(c, af) : c \in {"leaf", "wrap", "box.item", "show"}, af \in Ws} \cup
+    {CallN(c, af) : c \in {"leaf", "wrap", "box.item", "show", "greetc"}, af \in Ws} \cup
     {SlotN(af) : af \in Ws} \cup
     {HCommentN(af) : af \in Ws} \cup
     {MCommentN(af) : af \in Ws} \cup
@@ -347,9 +347,12 @@ DenNode(nd, prev, env) ==
                                     \* a template with a receiver: templ (b boxT) item() { <em>m</em> }, called as @box.item()
                                     \* a template with a parameter: templ show(s string) { <q>{ s }</q> }, called as @show(env.E(1))
                                     ELSE IF nd.comp = "show" THEN << TagTok("q", <<>>, "may"), Tok("val", "E1", "mustnot"), Tok("close", "q", "mustnot") >>
+                                    \* a script template rendered as a component: @greet(env.E(1)) writes the function's definition
+                                    \* (once per rendering) and a script element that calls it with the JSON of the argument
+                                    ELSE IF nd.comp = "greetc" THEN << Tok("def", "scriptG", "may"), Tok("scall", "scriptG", "mustnot") >>
                                     ELSE IF nd.comp = "box.item" THEN << TagTok("em", <<>>, "may"), Tok("word", "m", "mustnot"), Tok("close", "em", "mustnot") >>
                                     ELSE << TagTok("section", <<>>, "may"), Tok("close", "section", "may") >>,
-                           evs |-> IF nd.comp = "show" THEN << "E1" >> ELSE <<>>, prev |-> POpaque]
+                           evs |-> IF nd.comp \in {"show", "greetc"} THEN << "E1" >> ELSE <<>>, prev |-> POpaque]
       [] nd.k = "callb" -> LET r == DenList(nd.body, POpaque, env) IN
                            [toks |-> << TagTok("section", <<>>, "may") >> \o r.toks \o << Tok("close", "section", "may") >>,
                             evs |-> r.evs, prev |-> POpaque]
